@@ -1,12 +1,12 @@
 SPECIFICATION Spec
 CONSTANTS
   Delays = {0, 2, 4}
-  Timeouts = {3, 7}
-  Interrupts <- IntrAll
-  Faults <- FaultsQuick
-  SideChoices <- SidesQuick
+  Timeouts = {7}
+  Interrupts <- IntrFew
+  Faults <- FaultsKi
+  SideChoices = {}
   MaxFaulty = 2
-  CleanupCounts = {0, 1, 2}
+  CleanupCounts = {0, 2}
   Variants = {"plain", "broken"}
 INVARIANT OneOutcome
 INVARIANT Sequenced
